@@ -138,6 +138,9 @@ Definition decode_value_slice (bs : bytes) : vs_res :=
 (** ValueStruct.EncodeValue / DecodeValue *)
 Record vstruct := { v_meta : N; v_exp : N; v_value : bytes }.
 Definition enc_value (v : vstruct) : bytes := n2b (v_meta v) :: put_uvarint (v_exp v) ++ v_value v.
+(** ValueStruct.EncodedSize: uint32(len(Value) + 1 + sizeVarint(ExpiresAt)) *)
+Definition encoded_size (v : vstruct) : N := u32 (blen (v_value v) + 1 + size_varint_go 9 (v_exp v)).
+
 Definition decode_value (bs : bytes) : vstruct :=
   match bs with
   | [] => {| v_meta := 0; v_exp := 0; v_value := [] |}
